@@ -543,6 +543,7 @@ pub fn check_spec(s: &mut Session, group: &'static str, spec: &Spec, full: bool)
         // that they cannot crowd other failures out of the (capped) failure list
         if ran.trapped && site.contains("space-assert") {
             s.count("known:space-assert-panics");
+            s.count(&format!("known:space-assert-nodes:{}", match n { 0..=8 => "<=8", 9..=32 => "9..32", 33..=99 => "33..99", _ => ">=100" }));
             if KNOWN_SPACE_ASSERT.fetch_add(1, std::sync::atomic::Ordering::Relaxed) >= 3 {
                 return;
             }
